@@ -1,6 +1,6 @@
-(** H3Headers — the converse direction: every section satisfying [WFx] IS accepted by the
-    model of parseHeaders, so [WFx] characterises acceptance exactly (nothing well-formed
-    is refused, apart from a Content-Length that does not fit 63 bits). *)
+(** H3Headers — the converse direction: every well-formed section whose Content-Length fits 63
+    bits IS accepted by the model of parseHeaders, so [WF /\ cl_fits] characterises acceptance
+    exactly (nothing well-formed is refused). *)
 From Coq Require Import List ZArith Bool String Lia.
 From V Require Import Gen.Params Lib.Hex H3Headers.Model H3Headers.Spec H3Headers.Proofs H3Headers.ProofsParse H3Headers.ProofsMain.
 Import ListNotations.
@@ -44,7 +44,7 @@ Qed.
 Lemma pseudo_first_tail f r : pseudo_first (f :: r) -> pseudo_first r.
 Proof. intros H l1 a l2 b l3 E. apply (H (f :: l1) a l2 b l3). rewrite E. reflexivity. Qed.
 
-Lemma pseudo_unique_x_tail f r : pseudo_unique_x (f :: r) -> pseudo_unique_x r.
+Lemma pseudo_unique_tail f r : pseudo_unique (f :: r) -> pseudo_unique r.
 Proof. intros H l1 a l2 b l3 E. apply (H (f :: l1) a l2 b l3). rewrite E. reflexivity. Qed.
 
 Lemma ploop_complete isReq : forall fs st,
@@ -52,8 +52,8 @@ Lemma ploop_complete isReq : forall fs st,
   section_size fs <= pLimit st ->
   pseudo_first fs ->
   (pRegular st = true -> Forall (fun f => is_pseudo (fname f) = false) fs) ->
-  pseudo_unique_x fs ->
-  (forall f sl, In f fs -> fname f = slot_name sl -> get_slot sl (pPs st) = []) ->
+  pseudo_unique fs ->
+  (forall f sl, In f fs -> fname f = slot_name sl -> get_flag sl (pSeen st) = false) ->
   (forall f g, In f fs -> In g fs -> is_cl f -> is_cl g -> fvalue f = fvalue g) ->
   (pReadCL st = true -> forall f, In f fs -> is_cl f -> fvalue f = pCL st) ->
   exists st', ploop isReq st fs false = inr st'.
@@ -66,7 +66,7 @@ Proof.
     assert (Hl : 0 <= pLimit st - fsize f) by (rewrite fsize_32; lia).
     assert (Hstep : exists st1, step_ok isReq st f st1 /\
               (pRegular st1 = true -> Forall (fun g => is_pseudo (fname g) = false) r) /\
-              (forall g sl, In g r -> fname g = slot_name sl -> get_slot sl (pPs st1) = []) /\
+              (forall g sl, In g r -> fname g = slot_name sl -> get_flag sl (pSeen st1) = false) /\
               (pReadCL st1 = true -> forall g, In g r -> is_cl g -> fvalue g = pCL st1)).
     { destruct (is_pseudo (fname f)) eqn:Ep.
       - destruct (Hps eq_refl) as (sl & Hn & Hk).
@@ -75,10 +75,9 @@ Proof.
         eexists. split; [eapply StepPseudo; eauto; apply (Hslots f sl); [left; auto|auto]|].
         split; [simpl; discriminate|]. split.
         + intros g sl' Hg Hgn. simpl. destruct (slot_eq_dec sl' sl) as [->|Hd].
-          * rewrite get_set_same.
-            apply in_split in Hg as (a & b & ->).
+          * exfalso. apply in_split in Hg as (a & b & ->).
             apply (Hux [] f a g b); [reflexivity|apply is_pseudo_spec; auto|congruence].
-          * rewrite get_set_other by auto. apply (Hslots g sl'); [right; auto|auto].
+          * rewrite flag_set_other by auto. apply (Hslots g sl'); [right; auto|auto].
         + simpl. intros Hrc g Hg Hc. apply Hclr; auto. right; auto.
       - specialize (Hrg eq_refl).
         assert (Hr' : Forall (fun g => is_pseudo (fname g) = false) r).
@@ -102,7 +101,7 @@ Proof.
     simpl. rewrite Hp. apply IH; auto.
     + rewrite (step_limit _ _ _ _ Hs), fsize_32. lia.
     + eapply pseudo_first_tail; eauto.
-    + eapply pseudo_unique_x_tail; eauto.
+    + eapply pseudo_unique_tail; eauto.
     + intros a b Ha Hb. apply Hcle; right; auto.
 Qed.
 
@@ -122,9 +121,9 @@ Proof.
 Qed.
 
 Theorem parseHeaders_complete isReq lim fs :
-  WFx isReq lim fs -> parseHeaders isReq lim fs false = inr (hdr_of fs).
+  WF isReq lim fs -> cl_fits fs -> parseHeaders isReq lim fs false = inr (hdr_of fs).
 Proof.
-  intros (H1 & H2 & H3 & [H4 H4'] & H5).
+  intros (H1 & H2 & H3 & [H4 H4'] & H5) Hfit.
   assert (Hlim : 0 <= lim) by (pose proof (section_size_nonneg fs); lia).
   destruct (ploop_complete isReq fs (pinit lim)) as [st Hl]; auto.
   - simpl. discriminate.
@@ -133,28 +132,23 @@ Proof.
   - assert (Hok : exists h, parseHeaders isReq lim fs false = inr h).
     { unfold parseHeaders. rewrite Hl. unfold pfinish.
       pose proof (ploop_cl_last _ _ _ _ Hl) as Hcl.
-      destruct (is_empty (pCL st)) eqn:Ee; [eauto|]. apply is_empty_false in Ee.
+      destruct (ploop_cl _ _ _ _ Hl) as (_ & _ & I3).
+      destruct (pReadCL st) eqn:Erc; cbn [negb]; [|eauto].
       change (bs "content-length") with n_content_length in Hcl.
-      destruct (last_value_cases n_content_length fs) as [[_ E]|(g & Hg & Hgn & E)]; [congruence|].
-      destruct (H4 g Hg Hgn) as [Ev|[Hn Hlt]]; [congruence|].
-      rewrite Hcl, E, (parse_uint63_complete _ Hn Hlt). eauto. }
-    destruct Hok as [h Hh]. pose proof (parseHeaders_sound _ _ _ _ _ Hlim Hh) as (_ & _ & ->). exact Hh.
+      destruct (last_value_cases n_content_length fs) as [[Hno _]|(g & Hg & Hgn & E)].
+      - apply I3 in Hno as [_ E]. simpl in E. congruence.
+      - rewrite Hcl, E, (parse_uint63_complete _ (H4 g Hg Hgn) (Hfit g Hg Hgn)). eauto. }
+    destruct Hok as [h Hh]. pose proof (parseHeaders_sound _ _ _ _ _ Hlim Hh) as (_ & _ & _ & ->). exact Hh.
 Qed.
 
-(** Acceptance is EXACTLY [WFx]. *)
+(** Acceptance is EXACTLY "well-formed per RFC 9114 and Content-Length below 2^63". *)
 Theorem parseHeaders_iff isReq lim fs :
-  0 <= lim -> ((exists h, parseHeaders isReq lim fs false = inr h) <-> WFx isReq lim fs).
+  0 <= lim -> ((exists h, parseHeaders isReq lim fs false = inr h) <-> WF isReq lim fs /\ cl_fits fs).
 Proof.
   intros Hlim. split.
-  - intros [h H]. apply parseHeaders_sound in H as (_ & Hw & _); auto.
-  - intros Hw. eexists. apply parseHeaders_complete; auto.
+  - intros [h H]. apply parseHeaders_sound in H as (_ & Hw & Hf & _); auto.
+  - intros [Hw Hf]. eexists. apply parseHeaders_complete; auto.
 Qed.
-
-(** In particular nothing the RFC calls well-formed is refused (when Content-Length fits 63 bits). *)
-Theorem parseHeaders_accepts_WF isReq lim fs :
-  WF isReq lim fs -> (forall f, In f fs -> is_cl f -> dec_value (fvalue f) < 2 ^ 63) ->
-  parseHeaders isReq lim fs false = inr (hdr_of fs).
-Proof. intros Hw Hr. apply parseHeaders_complete. apply WF_WFx; auto. Qed.
 
 (** * Names with bytes >= 0x80: why the byte-wise lower-case test is a sound abstraction.
     Go evaluates [strings.ToLower(name) != name] with UTF-8 decoding, the model byte-wise.  For a
